@@ -34,13 +34,14 @@ class ValueCheck(Check):
         return refs, blocked
 
     def compare(self, rec, got, envs, refs, margin=None, funcs=None, cut_guard=True, what="result", pole_ok=True,
-                kappa_rec=None):
+                kappa_rec=None, kappa_envs=None):
         """judge one returned dump against precomputed references; returns number of judged points.
         pole_ok: a zoo/nan/oo result is accepted where the reference itself is a pole/undefined."""
         hasf = on.has_float(rec) or on.has_float(got)
         mag = 100 if hasf else 300
         judged = 0
-        for env, ref in zip(envs, refs):
+        for k, (env, ref) in enumerate(zip(envs, refs)):
+            kenv = kappa_envs[k] if kappa_envs is not None else env
             self.count()
             if isinstance(ref, Unjudgeable):
                 self.skip("ref:" + ref.reason.split(":")[0])
@@ -58,7 +59,7 @@ class ValueCheck(Check):
                 continue
             try:
                 if hasf:
-                    tol = on.float_abs_tol(kappa_rec if kappa_rec is not None else rec, env, funcs=funcs, margin=margin,
+                    tol = on.float_abs_tol(kappa_rec if kappa_rec is not None else rec, kenv, funcs=funcs, margin=margin,
                                            cut_guard=cut_guard, mag=mag)
                     ok = on.close(ref, val, self.float_rel_floor, tol)
                 else:
